@@ -86,6 +86,21 @@ Theorem C02_flatten_matches_merge : forall (nm:nat -> string) (s0 rf0:list nat) 
   flatten_multi (map (fun sr => map nm (fst sr)) ((s0,rf0)::others)) (Some (map snd ((s0,rf0)::others)))
   = FlatOk (ref_names (List.length rf0) ++ map nm (drop_at s0 rf0 0%nat ++ List.concat (map (fun sr => drop_at (fst sr) (snd sr) 0%nat) others))).
 Proof. exact flatten_matches_merge. Qed.
+(* Row by row: the flattened names have as many entries as the merged shape has rows; rows below the number of references
+   are named REF1..REFk, every later row carries the name of exactly the sensor whose value stands in that merged row
+   (order_of, the row order of C02_merge_mode_shapes_spec, is this merged_order). *)
+Theorem C02_names_follow_rows : forall (nm:nat -> string) (s0 rf0:list nat) (others:list (list nat * list nat)) (row:nat),
+  let order := merged_order s0 rf0 others in
+  let names := (ref_names (List.length rf0) ++
+                map nm (drop_at s0 rf0 0%nat ++ List.concat (map (fun sr => drop_at (fst sr) (snd sr) 0%nat) others)))%list in
+  flatten_multi (map (fun sr => map nm (fst sr)) ((s0,rf0)::others)) (Some (map snd ((s0,rf0)::others))) = FlatOk names /\
+  List.length names = List.length order /\
+  ((row < List.length rf0)%nat -> nth row names EmptyString = ("REF" ++ nat_str (S row))%string) /\
+  ((List.length rf0 <= row < List.length order)%nat -> nth row names EmptyString = nm (nth row order 0%nat)).
+Proof. exact names_follow_rows. Qed.
+Theorem C02_order_of_merged_order : forall R s0 rf0 (others:list (setup_spec R)),
+  order_of R s0 rf0 others = merged_order s0 rf0 (map (fun t : setup_spec R => (snd (fst t), snd t)) others).
+Proof. exact order_of_merged_order. Qed.
 Theorem C02_merged_order_length : forall s0 rf0 others,
   List.length (merged_order s0 rf0 others)
   = (List.length rf0 + List.length (drop_at s0 rf0 0%nat ++ List.concat (map (fun sr => drop_at (fst sr) (snd sr) 0%nat) others)))%nat.
@@ -98,6 +113,8 @@ Print Assumptions C02_merge_mode_shapes_spec.
 Print Assumptions C02_poser_stats.
 Print Assumptions C02_mean_var_const.
 Print Assumptions C02_flatten_matches_merge.
+Print Assumptions C02_names_follow_rows.
+Print Assumptions C02_order_of_merged_order.
 Print Assumptions C02_merged_order_length.
 
 (* non-vacuity at Qc: global complex shape over 5 sensors, setups see [0;1;2] (refs at positions [2;0]) x 2 and
